@@ -74,12 +74,24 @@ def build(spec):
         return ad.StatThresholdAnomaliser(**kw)
     role = "saving" if det in ("CAPA", "MVCAPA") else "cost"
     sc = make_scorer(spec.get("scorer"), role)
+    _build_counter[0] += 1
     if sc is not None:
+        if _build_counter[0] % 2 == 0 or spec.get("scorer") == "GCov":       # (always for the cost whose min_size is fitted state)
+            # every second scorer handed to a detector has a PAST: it was fitted to wider data before (a cost object the user used elsewhere);
+            # whether a configuration is valid, and what it returns, depends on the configuration and the data of this run only (C10)
+            try:
+                sc.fit(_WIDE)
+            except Exception:       # noqa: BLE001
+                sc = make_scorer(spec.get("scorer"), role)
         kw[SCORER_KW[det]] = sc
     if spec.get("point") is not None:
         kw["point_saving"] = make_scorer(spec["point"], "saving")
     cls = getattr(cd, det, None) or getattr(ad, det)
     return cls(**kw)
+
+
+_build_counter = [0]
+_WIDE = np.random.default_rng(12345).normal(size=(24, 7))
 
 
 def scorer_min_size(spec, p):
